@@ -103,3 +103,29 @@ Proof.
   apply filter_In in Hin' as [_ Hp]. simpl in Hp. rewrite Hfk in Hp. simpl in Hp.
   apply existsb_exists in Hp as [c [Hc E]]. apply Z.eqb_eq in E. eauto.
 Qed.
+
+(* ---- dotted paths: first_level / subpaths of reverter.py ---- *)
+Lemma heads_In (paths : list (list Z)) (h : Z) : In h (heads paths) <-> exists t, In (h :: t) paths.
+Proof.
+  unfold heads. rewrite in_flat_map. split.
+  - intros [p [Hp Hh]]. destruct p as [|h' t]; [contradiction|]. destruct Hh as [<-|[]]. exists t. exact Hp.
+  - intros [t Ht]. exists (h :: t). split; [exact Ht | left; reflexivity].
+Qed.
+
+Lemma subpaths_In (paths : list (list Z)) (r : Z) (p : list Z) :
+  In p (subpaths paths r) <-> p <> [] /\ In (r :: p) paths.
+Proof.
+  unfold subpaths. rewrite in_flat_map. split.
+  - intros [q [Hq Hp]]. destruct q as [|h [|x t]]; try contradiction.
+    destruct (Z.eqb_spec h r) as [->|N]; [|contradiction].
+    destruct Hp as [<-|[]]. split; [discriminate | exact Hq].
+  - intros [Hne Hin]. exists (r :: p). split; [exact Hin|].
+    destruct p as [|x t]; [congruence|]. rewrite Z.eqb_refl. left. reflexivity.
+Qed.
+
+(* every named path shorter than the fuel is followed: the traversal never runs out of fuel on it *)
+Lemma subpaths_shorter (paths : list (list Z)) (r : Z) (n : nat) :
+  (forall p, In p paths -> (length p <= S n)%nat) -> forall p, In p (subpaths paths r) -> (length p <= n)%nat.
+Proof.
+  intros H p Hp. apply subpaths_In in Hp as [_ Hin]. specialize (H _ Hin). simpl in H. lia.
+Qed.
